@@ -119,7 +119,27 @@ func checkC34(c *Ctx) (string, []string) {
 						}
 					}
 				}
-				c.Check(okFresh, "C34.validator-record", key, mu.Pos(), "created in the iteration that fills it from that guarantee's signatures", "the set filled from a guarantee's signatures is created outside the loop over the guarantees and never renewed: signers of earlier guarantees are looked up for later ones")
+				if !okFresh && isMk && len(loops) > 1 {
+					// or emptied at the start of each outer iteration: clear(set) inside the outer loop, dominating the fill
+					allInstrs(g, func(x ssa.Instruction) {
+						call, isCall := x.(*ssa.Call)
+						if !isCall {
+							return
+						}
+						if b, isB := call.Call.Value.(*ssa.Builtin); isB && b.Name() == "clear" && resolveLocal(call.Call.Args[0]) == ssa.Value(mk) || isB && b.Name() == "clear" && stripConv(call.Call.Args[0]) == ssa.Value(mk) {
+							inAll := true
+							for _, l := range loops[1:] {
+								if !l[call.Block()] {
+									inAll = false
+								}
+							}
+							if inAll && call.Block().Dominates(mu.Block()) && !loops[0][call.Block()] {
+								okFresh = true
+							}
+						}
+					})
+				}
+				c.Check(okFresh, "C34.validator-record", key, mu.Pos(), "created (or cleared) in the iteration that fills it from that guarantee's signatures", "the set filled from a guarantee's signatures is created outside the loop over the guarantees and never renewed: signers of earlier guarantees are looked up for later ones")
 			})
 		}
 		if nsets == 0 {
